@@ -373,6 +373,17 @@ def c03(tr, acc, case):
             if late:
                 acc.violation({"mech": "scheduled_wakeup_never_fired", "tick": late[0][0]},
                               f"the run went quiet for good at vt={tr.vt_end} without finishing while its wakeup heap still holds {late} (due times in runtime clock)", case)
+    # (e) the run went quiet for good, unfinished, with a step slot still marked busy although no body of that step is executing:
+    #     the invocation's completion was never taken in (its queued siblings then wait behind a slot nobody occupies)
+    if tr.quiescent and tr.outcome is None and tr.ticks and not tr.extra.get("runaway"):
+        last = tr.ticks[-1]["post"]
+        open_bodies = Counter(b["step"] for b in tr.bodies() if b["t1"] is None)
+        for s_, st in last.items():
+            if len(st["ip"]) > open_bodies.get(s_, 0) and not any(w for w in st.get("wait", [])):
+                acc.hit("zombie_slot_eval")
+                acc.violation({"mech": "slot_busy_with_no_body_running", "queued_behind": st["q"] > 0},
+                              f"run quiet and unfinished at vt={tr.vt_end}: step {s_} holds {len(st['ip'])} in-progress slot(s) but {open_bodies.get(s_, 0)} of its bodies are "
+                              f"executing; {st['q']} event(s) queued behind", case)
     meta = (case.get("case") or {}).get("spec", {}).get("meta", {}) if isinstance(case, dict) else {}
     if meta.get("retry_due") is not None:
         b1 = [b for b in tr.bodies() if b["step"] == "flaky" and b["att"] == 1]
